@@ -20,11 +20,12 @@ class C16(Prop):
     id = 'C16'
     stages = ('S1', 'S6')
     needs = ('cells', 'frags', 'svg')
-    partial = 'partial: the innermost-shape clause of the tag rule is proved as "children are offered the tag before their parent"; that enclosing shapes precede enclosed ones in the emitted order (laminar bounds) is covered by correspondence and oracle'
+    partial = 'partial: one insertion goes to an innermost node (theorem); that the pass meets enclosing shapes before the tag is swept for nested boxes and circles and otherwise covered by correspondence and oracle'
     rule = 'legend items: a drawing without # followed by a legend (header/blank/eol variants, 0-6 entries, identifiers x declarations over all scalars except braces incl. line ends, quotes, markup); tag items: tags in boxes, rounded boxes, circles, nested boxes, beside text, outside shapes; non-trivial when the legend has an entry or the drawing has a tag'
     level_text = ('Theorems C16_legend_entries_read_back (parse o print = id for every legend in the documented form, LF and CRLF, blanks after the brace, any number of entries), C16_legend_is_not_drawn (the cell buffer is that of the text before the header, LF or CRLF), C16_rules_in_order, '
-                  'C16_tag_outside_everything_stays_text (iff no node fits it), C16_taken_tag_becomes_classes (not rendered, names added), C16_other_text_unaffected, C16_children_first; by induction over entries and over the tree.')
-    level_note = 'partial (see DESIGN.md C16): innermost-shape clause beyond children-first relies on correspondence plus oracle'
+                  'C16_tag_outside_everything_stays_text (iff no node fits it), C16_taken_tag_becomes_classes (not rendered, names added), C16_other_text_unaffected, C16_children_first, C16_tag_goes_to_an_innermost_node (for every tree and tag the taker is a node the tag fits in, with no node below it and no earlier subtree that it fits in; nothing else changes); by induction over entries and over the tree. '
+                  'Through the whole model from the cells to the (fragment, class names) list, by sweeps inside Coq: C16_nested_boxes_name_the_inner_one (144 placements of {a} in the inner of two nested sharp/rounded boxes, flush against the wall included: only the inner rectangle is named, the tag is not rendered; outside both it stays text) and C16_tag_in_a_circle_names_it (547 places in the 12 catalogue circles with room).')
+    level_note = 'partial (see DESIGN.md C16): that the enclosure pass has built the nesting when a tag arrives is proved on the swept nestings and otherwise relies on correspondence plus oracle'
     def legend_item(self, rng, gen='legend'):
         before = rng.choice(['', '+--+\n|{a}|\n+--+\n', '{b}\n', ' .-.\n( a )\n `-\'\n', 'ab -- cd\n', '+-----+\n| {a} |\n+-----+\n  {zz}\n'])
         eol = rng.choice(['\n', '\n', '\r\n'])
@@ -49,12 +50,16 @@ class C16(Prop):
         for _ in range(n):
             k = rng.choice(['box', 'rbox', 'circle', 'nested', 'beside', 'outside', 'multi', 'siblings', 'titled'])
             tg = rng.choice(tags)
-            if k == 'box': rows = gens.box(rng.randint(len(tg), 14), rng.randint(1, 3), '++++', '-', '|', [' ' * rng.randint(0, 1) + tg, rng.choice(['', 'txt'])])
+            if k == 'box':
+                w = rng.randint(len(tg), 14)
+                pad = rng.choice([0, 1, max(w - len(tg), 0)])        # at the left wall, one blank in, or flush against the right wall (F14)
+                rows = gens.box(w, rng.randint(1, 3), '++++', '-', '|', [' ' * min(pad, w - len(tg)) + tg, rng.choice(['', 'txt'])])
             elif k == 'rbox': rows = gens.box(rng.randint(len(tg), 14), rng.randint(1, 3), rng.choice(["..''", ",.`'"]), '-', '|', [tg])
             elif k == 'circle': rows = ['    _.-\'\'\'\'\'\'-._', '  ,\'          `.', ' /     ' + tg.ljust(9)[:9] + '\\', '|                |', ' \\              /', '  `._        _.\'', '     `-....-\'']
             elif k == 'nested':
                 rows = gens.box(16, 5)
-                rows = gens.overlay(rows, gens.box(8, 1, '++++', '-', '|', [tg[:8]]), 2, 1)
+                iw = rng.choice([8, max(len(tg[:8]), 1)])       # roomy, or the tag fills the inner box from wall to wall
+                rows = gens.overlay(rows, gens.box(iw, 1, '++++', '-', '|', [tg[:8]]), 2, 1)
                 rows = gens.overlay(rows, [rng.choice(tags)[:5]], 3, 5)
             elif k == 'siblings':
                 # two or three inner boxes in one outer box, a tag in each (or only in the first)
